@@ -303,6 +303,8 @@ def msan_stage(R, res, spec, base_args, ncases, first, env=None, slow=4, wall=No
     """run ncases of a harness built with clang -fsanitize=memory (library, harness and oracle all instrumented; zstd switches its assembly off and
     poisons its workspace itself in such builds): a branch, address or libc call (memcmp of two outputs included) that depends on an uninitialised
     byte stops the process and becomes the key san:memory:use-of-uninitialized-value:<first frame in the repository>."""
+    if os.environ.get('VERIF_NO_CLANG_STAGES'):      # seeded-change trials only (tools/matrix.py): skips the clang builds; what is then detected is a subset of what the check detects
+        return 0
     kw = dict(spec[2]) if len(spec) > 2 else {}
     exe = build.build_harness(spec[0], 'msan', **kw)
     menv = dict(env or {}, VERIF_SLOW=str(slow)); menv.update(MSAN_ENV)
